@@ -1352,6 +1352,13 @@ func c16Witnesses() []c16Named2 {
 			"openapi.json": c16RootDoc(jm(), jm("/x", jm("post", jm("responses", jm("200", jm("description", "a", "headers", jm("H", jref("common/h.json#/components/headers/RL"))),
 				"201", jm("description", "b", "headers", jm("H", jref("common/h.json#/components/headers/RL")))))))),
 			"common/h.json": jm("components", jm("headers", jm("RL", jm("schema", jm("type", "integer", "maximum", 9)))))}},
+		{"wrongrefpath-link-empty-name", "openapi.json", map[string]any{
+			"openapi.json":    c16RootDoc(jm(), c16Op200(jm("description", "r4", "links", jm("l", jref("./common/lin5.json"))))),
+			"common/lin5.json": jm("description", "l6", "operationId", "opx")}},
+		{"flag-dropped-inline-path-item-of-external-callback", "openapi.json", map[string]any{
+			"openapi.json": c16RootDoc(jm("callbacks", jm("T1", jref("sub/defs2.json#/components/callbacks/N2"))), nil),
+			"sub/defs2.json": jm("components", jm("callbacks", jm("N2", jm("{$request.body#/u}", jm("post", jm("parameters", []any{jm("in", "query", "name", "p7", "schema", jref("#/components/schemas/N8"))},
+				"responses", jm("200", jm("description", "r")))))), "schemas", jm("N8", jm("type", "integer", "maximum", 9))))}},
 		{"callback-cycle", "openapi.json", map[string]any{
 			"openapi.json": c16RootDoc(jm("callbacks", jm("cb", jm("{$request.body#/u}", jm("post", jm("responses", jm("200", jm("description", "r")), "callbacks", jm("again", jref("#/components/callbacks/cb"))))))), nil)}},
 	}
